@@ -26,6 +26,7 @@ class Undecided(Exception):
 
 # ----------------------------------------------------------------------
 _ATOMS: dict[str, tuple] = {}  # canonical name -> (fn, args) for structured atoms
+_SQRT_OF: dict[str, str] = {}  # plain atom X -> name of the atom sqrt<X>; canonical form writes X as sqrt<X>^2
 
 
 def _mono_str(m):
@@ -113,7 +114,7 @@ class Poly:
                 # sqrt(x)^2 -> x
                 expand = None
                 for a, e in list(d.items()):
-                    if a in _ATOMS and _ATOMS[a][0] == "sqrt" and abs(e) >= 2:
+                    if a in _ATOMS and _ATOMS[a][0] == "sqrt" and abs(e) >= 2 and a not in _SQRT_OF.values():
                         k, r = divmod(e, 2)
                         inner = _ATOMS[a][1][0]
                         d[a] = r
@@ -168,10 +169,23 @@ class Poly:
         return to_poly(o) * self.inverse()
 
     # -- identity
+    def canon(self):
+        """Rewrite every plain atom X that has a registered sqrt<X> as sqrt<X>^2 (one normal form)."""
+        if not _SQRT_OF or not any(a in _SQRT_OF for m in self.t for a, _ in m):
+            return self
+        t = {}
+        for m, c in self.t.items():
+            d = {}
+            for a, e in m:
+                if a in _SQRT_OF:
+                    a, e = _SQRT_OF[a], 2 * e
+                d[a] = d.get(a, 0) + e
+            m2 = tuple(sorted((a, e) for a, e in d.items() if e != 0))
+            t[m2] = t.get(m2, 0) + c
+        return Poly(t)
+
     def key(self):
-        if self._h is None:
-            self._h = tuple(sorted(self.t.items()))
-        return self._h
+        return tuple(sorted(self.canon().t.items()))
 
     def __eq__(self, o):
         if not isinstance(o, (Poly, int, Fraction, float)):
@@ -185,7 +199,7 @@ class Poly:
         if not self.t:
             return "0"
         parts = []
-        for m, c in sorted(self.t.items()):
+        for m, c in sorted(self.canon().t.items()):
             ms = _mono_str(m)
             if ms == "1":
                 parts.append(str(c))
@@ -310,9 +324,12 @@ def fn(name, *args):
                 return Poly.const(Fraction(int(v.numerator ** 0.5), int(v.denominator ** 0.5)))
         if x.single_term():
             (m, c), = x.t.items()
-            # sqrt(y^2) is |y|, not y: only merge even powers of atoms known non-negative (none here)
-            if m and len(m) == 1 and m[0][0] in _ATOMS and _ATOMS[m[0][0]][0] == "sqrt" and False:
-                pass
+            if c == 1 and len(m) == 1 and m[0][1] == 1 and m[0][0] not in _ATOMS:
+                # sqrt of a plain atom X: register so that X is canonically sqrt<X>^2
+                cname = f"sqrt<{m[0][0]}>"
+                _ATOMS.setdefault(cname, ("sqrt", args))
+                _SQRT_OF[m[0][0]] = cname
+                return Poly.atom(cname)
     elif name == "exp":
         (x,) = args
         if x.is_zero():
